@@ -29,6 +29,9 @@ pub enum What {
     ReceiverCtx,
     EncapSecret,
     DecapSecret,
+    /// a single-shot call (0 seal, 1 seal in place, 2 open, 3 open in place): there is no object to look at, but the
+    /// drop ledger must show the same wipes as setup + one operation + drop of the context
+    SingleShot(u8),
 }
 
 #[derive(Clone, Debug, Serialize, Deserialize)]
@@ -264,6 +267,59 @@ pub fn drop_probe<A: AeadT, D: KdfT, K: KemT>(id: SuiteId, req: &ProbeReq) -> Re
             }
             Ok(slot_probe(ss, &req.needles, |_| 0))
         }
+        What::SingleShot(form) => {
+            if !can_seal {
+                return Err("single-shot forms need a sealing AEAD".into());
+            }
+            let pk_r = K::PublicKey::from_bytes(&req.pk_r).map_err(|x| e("pk_r", x))?;
+            let sk_r = K::PrivateKey::from_bytes(&req.sk_r).map_err(|x| e("sk_r", x))?;
+            let enc = K::EncappedKey::from_bytes(&req.enc).map_err(|x| e("enc", x))?;
+            let (ct, aad) = req.cts.first().cloned().ok_or("no R1 ciphertext")?;
+            let nt = AeadTag::<A>::size();
+            let tag = AeadTag::<A>::from_bytes(&ct[ct.len() - nt..]).map_err(|x| e("tag", x))?;
+            let mut out = ProbeOut::default();
+            // composed path first: setup, one operation, drop
+            let l0 = ledger();
+            if form < 2 {
+                let m = mode_s::<K>(&req.mode).map_err(|x| e("mode", x))?;
+                let mut rng = ScriptRng::new(&req.ikm_e);
+                let (_enc, mut ctx) = hpke::setup_sender::<A, D, K, _>(&m, &pk_r, &req.info, &mut rng).map_err(|x| e("setup_sender", x))?;
+                let _ = ctx.seal(b"single shot probe", b"aad").map_err(|x| e("seal", x))?;
+                drop(ctx);
+            } else {
+                let m = mode_r::<K>(&req.mode).map_err(|x| e("mode", x))?;
+                let mut ctx = hpke::setup_receiver::<A, D, K>(&m, &sk_r, &enc, &req.info).map_err(|x| e("setup_receiver", x))?;
+                let _ = ctx.open(&ct, &aad).map_err(|x| e("open", x))?;
+                drop(ctx);
+            }
+            let l1 = ledger();
+            match form {
+                0 => {
+                    let m = mode_s::<K>(&req.mode).map_err(|x| e("mode", x))?;
+                    let mut rng = ScriptRng::new(&req.ikm_e);
+                    let _ = hpke::single_shot_seal::<A, D, K, _>(&m, &pk_r, &req.info, b"single shot probe", b"aad", &mut rng).map_err(|x| e("single_shot_seal", x))?;
+                }
+                1 => {
+                    let m = mode_s::<K>(&req.mode).map_err(|x| e("mode", x))?;
+                    let mut rng = ScriptRng::new(&req.ikm_e);
+                    let mut buf = b"single shot probe".to_vec();
+                    let _ = hpke::single_shot_seal_in_place_detached::<A, D, K, _>(&m, &pk_r, &req.info, &mut buf, b"aad", &mut rng).map_err(|x| e("single_shot_seal_in_place_detached", x))?;
+                }
+                2 => {
+                    let m = mode_r::<K>(&req.mode).map_err(|x| e("mode", x))?;
+                    let _ = hpke::single_shot_open::<A, D, K>(&m, &sk_r, &enc, &req.info, &ct, &aad).map_err(|x| e("single_shot_open", x))?;
+                }
+                _ => {
+                    let m = mode_r::<K>(&req.mode).map_err(|x| e("mode", x))?;
+                    let mut buf = ct[..ct.len() - nt].to_vec();
+                    hpke::single_shot_open_in_place_detached::<A, D, K>(&m, &sk_r, &enc, &req.info, &mut buf, &aad, &tag).map_err(|x| e("single_shot_open_in_place_detached", x))?;
+                }
+            }
+            let l2 = ledger();
+            out.ledger_setup = delta(l0, l1);
+            out.ledger_drop = delta(l1, l2);
+            Ok(out)
+        }
         What::DecapSecret => {
             let sk_r = K::PrivateKey::from_bytes(&req.sk_r).map_err(|x| e("sk_r", x))?;
             let enc = K::EncappedKey::from_bytes(&req.enc).map_err(|x| e("enc", x))?;
@@ -362,6 +418,20 @@ impl Part for C16 {
                 }
             }
         }
+        // the single-shot forms (ledger only, so guard-on builds only)
+        if cfg!(hpke_verif) {
+            for suite in all_suites() {
+                if !suite.aead.can_seal() || !(cfg.tier.thorough() || suite.kdf == suite.kem.kdf()) {
+                    continue;
+                }
+                for mode in MODES {
+                    for form in 0..4u8 {
+                        tag += 1;
+                        v.push(Case { suite, mode, what: What::SingleShot(form), ops: vec![], tag, witness: 0, target: 0, offset: 0 });
+                    }
+                }
+            }
+        }
         // shared secrets dropped at every offset 1..=15 of a 16-aligned arena
         for suite in all_suites() {
             if suite.aead != crate::refmodel::Aead::ExportOnly || suite.kdf != suite.kem.kdf() {
@@ -456,6 +526,7 @@ impl Part for C16 {
                 let ss = c.suite.kem.encap(&k.pk_r, auth, &sk_e).map(|x| x.0).unwrap_or_default();
                 vec![("shared_secret".to_string(), ss)]
             }
+            What::SingleShot(_) => vec![],
         };
         let req = ProbeReq { what: c.what.clone(), mode: m, sk_r: k.sk_r.clone(), pk_r: k.pk_r.clone(), enc, info, ikm_e: k.ikm_e.clone(), ops: c.ops.clone(), cts, needles: needles.clone(), offset: c.offset };
         let r = std::panic::catch_unwind(std::panic::AssertUnwindSafe(|| ops.drop_probe(&req)));
@@ -502,6 +573,27 @@ impl Part for C16 {
             if !after.is_empty() && !wiped.is_empty() {
                 out.notes.push(format!("stale copy of {} outside its field survives the drop (padding bytes copied by a move; not part of C16)", name));
             }
+        }
+        if let What::SingleShot(form) = c.what {
+            // ledger_setup = the composed path (setup + one operation + drop), ledger_drop = the single-shot call
+            if let (Some(comp), Some(single)) = (po.ledger_setup, po.ledger_drop) {
+                out.nontrivial = true;
+                out.transitions += 1;
+                let names = ["AeadKey (temporary key buffer)", "AeadNonce (base nonce)", "ExporterSecret", "SharedSecret"];
+                let fname = ["single_shot_seal", "single_shot_seal_in_place_detached", "single_shot_open", "single_shot_open_in_place_detached"][form as usize];
+                for i in 0..4 {
+                    if comp[i].0 < 1 {
+                        out.fail(format!("composed path recorded no {} wipe", names[i]));
+                    }
+                    if comp[i].1 > 0 || single[i].1 > 0 {
+                        out.fail(format!("{}: {} dropped with non-zero bytes left", fname, names[i]));
+                    }
+                    if single[i].0 < comp[i].0 {
+                        out.fail(format!("{}: {} {} wipe(s) recorded, but setup + one operation + drop of the context records {}: a secret of the single-shot path is never wiped", fname, single[i].0, names[i], comp[i].0));
+                    }
+                }
+            }
+            return out;
         }
         if let Some(l) = po.ledger_setup {
             // [AeadKey, AeadNonce, ExporterSecret, SharedSecret]
